@@ -324,8 +324,13 @@ package httpgen
 //@   ensures accepts.bodiless: spec.hasConfig(method) && len(errs) == 0 ==> spec.bodilessBound(method)
 //@   ensures refuses: spec.hasConfig(method) && len(errs) > 0 ==> !spec.Rule_http_impl(method)
 //@   loop 1 invariant (len(errors) == 0) <==> (forall k int :: 0 <= k && k < _i1 ==> spec.okPathVar(method.Input, config.PathParams[k]))
-//@   loop 2 invariant (len(errors) == 0) <==> (spec.pathVarsOK(method) && (forall a int, b int :: 0 <= a && a < _i2 && 0 <= b && b < len(config.PathParams) ==> queryParams[a].FieldName != config.PathParams[b]))
-//@   loop 3 invariant (len(errors) == 0) <==> (spec.pathVarsOK(method) && (forall a int, b int :: 0 <= a && a < _i2 && 0 <= b && b < len(config.PathParams) ==> queryParams[a].FieldName != config.PathParams[b]) && (forall b int :: 0 <= b && b < _i3 ==> qp.FieldName != config.PathParams[b]))
+//@   loop 2 invariant len(errors) == 0 ==> spec.pathVarsOK(method)
+//@   loop 2 invariant len(errors) == 0 ==> (forall a int, b int :: 0 <= a && a < _i2 && 0 <= b && b < len(config.PathParams) ==> queryParams[a].FieldName != config.PathParams[b])
+//@   loop 2 invariant spec.pathVarsOK(method) && (forall a int, b int :: 0 <= a && a < _i2 && 0 <= b && b < len(config.PathParams) ==> queryParams[a].FieldName != config.PathParams[b]) ==> len(errors) == 0
+//@   loop 3 invariant len(errors) == 0 ==> spec.pathVarsOK(method)
+//@   loop 3 invariant len(errors) == 0 ==> (forall a int, b int :: 0 <= a && a < _i2 && 0 <= b && b < len(config.PathParams) ==> queryParams[a].FieldName != config.PathParams[b])
+//@   loop 3 invariant len(errors) == 0 ==> (forall b int :: 0 <= b && b < _i3 ==> qp.FieldName != config.PathParams[b])
+//@   loop 3 invariant spec.pathVarsOK(method) && (forall a int, b int :: 0 <= a && a < _i2 && 0 <= b && b < len(config.PathParams) ==> queryParams[a].FieldName != config.PathParams[b]) && (forall b int :: 0 <= b && b < _i3 ==> qp.FieldName != config.PathParams[b]) ==> len(errors) == 0
 
 //@ func ValidateService(service *protogen.Service) (err error)
 //@   ensures ok: err == nil ==> (forall k int :: 0 <= k && k < len(service.Methods) ==> len(ValidateMethodConfig(service, service.Methods[k])) == 0)
